@@ -366,6 +366,24 @@ def rejectedPositions (ops : List String) (imps : List String) : List Bool :=
       | [_, r] => r != "ok" && r != "parked" && r != "notparked"
       | _ => false
 
+/-- the case leaves nothing held back at its end: every gated job was released, every park point released,
+    the pool never closed — only then "an accepted job has not run" is a statement about the pool -/
+def caseComplete (ops : List String) : Bool :=
+  let gatedNames := ops.filterMap fun o => match o.splitOn ":" with
+    | [c, k, kind] => if (c == "s" || c == "t" || c == "i" || c == "as") && (kind == "g" || kind.startsWith "p") then some k else none
+    | _ => none
+  let released := ops.filterMap fun o => match o.splitOn ":" with
+    | ["r", k] => some k
+    | _ => none
+  let parks := ops.filterMap fun o => match o.splitOn ":" with
+    | ["park", pt, _] => some pt
+    | _ => none
+  let rels := ops.filterMap fun o => match o.splitOn ":" with
+    | ["rel", pt] => some pt
+    | _ => none
+  gatedNames.all released.contains && parks.all rels.contains &&
+    !(ops.any fun o => o == "close" || o == "aclose")
+
 def runVerdict (closedCase : Bool) (rej : List Bool) (exp imp : String) : Option String :=
   let es := exp.toList
   let is := imp.toList
@@ -378,7 +396,7 @@ def runVerdict (closedCase : Bool) (rej : List Bool) (exp imp : String) : Option
       else none
     bad.head?
 
-def judgeTok (closedCase : Bool) (rej : List Bool) (exp imp : String) : Option String :=
+def judgeTok (closedCase overlap : Bool) (rej : List Bool) (exp imp : String) : Option String :=
   if exp == imp then none
   else if imp.startsWith "n=" && exp.startsWith "n=" then
     match runVerdict closedCase rej (field exp "run") (field imp "run") with
@@ -389,7 +407,10 @@ def judgeTok (closedCase : Bool) (rej : List Bool) (exp imp : String) : Option S
       else if field imp "g" != "ok" then some s!"more than workerSizeMaximum jobs executing at once: gauge {field imp "g"}"
       else none
   else if imp.startsWith "s" || imp.startsWith "t" || imp.startsWith "j" then
-    some s!"answer {imp}, the property prescribes {exp}"
+    -- a call overlapping a Close that has not returned may be answered either way
+    let r := ((imp.splitOn "=").drop 1).headD ""
+    if overlap && (r == "ok" || r == "closed" || r == "qclosed") then none
+    else some s!"answer {imp}, the property prescribes {exp}"
   else none
 
 def judge (line impl : String) : String :=
@@ -409,7 +430,16 @@ def judge (line impl : String) : String :=
     if es.length != is.length then s!"violation observation has {is.length} entries for {es.length} operations"
     else
       let rej := rejectedPositions ops is
-      match (es.zip is).filterMap (fun (e, i) => judgeTok closedCase rej e i) with
+      -- "not run" is decided on the final observation of a case that holds nothing back; earlier
+      -- observations and incomplete cases are judged as if the pool were still busy (closedCase = true)
+      let lastN := (List.range es.length).foldl (fun acc k => if (es[k]?.getD "").startsWith "n=" then k else acc) es.length
+      let strict := caseComplete ops
+      let idx (name : String) : Nat := (List.range ops.length).foldl (fun acc k => if (ops[k]?.getD "") == name && acc == ops.length then k else acc) ops.length
+      let a := idx "aclose"
+      let b := idx "jclose"
+      match ((List.range es.length).zip (es.zip is)).filterMap
+          (fun (k, (e, i)) => judgeTok (closedCase || !(strict && k == lastN))
+            ((a < k && k < b) || (ops[k]?.getD "").startsWith "j:") rej e i) with
       | why :: _ => s!"violation {why}"
       | [] => "allowed differs only in worker / park bookkeeping or timing the property does not fix"
 
